@@ -288,3 +288,60 @@ def security_code_key(vc):
     vc.prove("post.key=sha256[:16]", e.cipher._key == want)
     vc.prove("post.keeps-code", e.config_security_code == code)
     vc.prove("post.iv-default", e.cipher._iv is None)
+
+
+# ---------------------------------------------------------------------------------------
+# one encryptor object used for a whole sequence of wraps / unwraps (real plug-in): every unwrap returns exactly its
+# payload and every frame is the zero-IV frame - no state may leak from one call into the next.  Bounded (sequences).
+
+def fam_reuse(seed, tier):
+    import random
+    rnd = random.Random(seed)
+    for kind in ("csc", "cust", "cust+key"):
+        for _ in range(4 if tier == "quick" else 30):
+            ops = [rnd.choice(["wrap", "unwrap-own", "unwrap-foreign"]) for _ in range(rnd.randrange(2, 7))]
+            yield dict(kind=kind, ops=ops, seed=rnd.randrange(1 << 30))
+        yield dict(kind=kind, ops=["unwrap-foreign", "unwrap-foreign", "wrap", "unwrap-own"], seed=1)
+        yield dict(kind=kind, ops=["wrap", "wrap", "unwrap-own", "unwrap-own", "unwrap-foreign"], seed=2)
+
+
+@proof("C08/one-encryptor-many-calls", functions=[(MOD, "AesEncryptorMixin.encrypt"), (MOD, "AesEncryptorMixin.decrypt"),
+                                                  ("register_crypto_plugin", "AES128Proxy.encrypt"),
+                                                  ("register_crypto_plugin", "AES128Proxy.decrypt")],
+       family=fam_reuse, bounded_only=True)
+def reuse_encryptor(vc):
+    import random
+    from spec import aes197, crc as speccrc
+    M = vc.module(MOD)
+    kind, ops = vc._get("kind"), vc._get("ops")
+    rnd = random.Random(vc._get("seed"))
+
+    def make():
+        if kind == "csc":
+            return M.ConfigSecurityCodeEncryptor(b"\x01\x02\x03\x04\x05\x06\x07\x08")
+        if kind == "cust":
+            return M.SoftwareCustKeyEncryptor(bytes(range(16)))
+        return M.SoftwareCustKeyEncryptor(bytes(range(16)), bytes(range(0xA0, 0xAA)), 2)
+    shared = make()
+    key = shared.cipher._key if hasattr(shared.cipher, "_key") else None
+    bad = []
+    frames = []
+    for n, op in enumerate(ops):
+        vc.tick()
+        payload = bytes(rnd.randrange(256) for _ in range(rnd.choice([12, 17, 26, 40])))
+        if op == "wrap":
+            fr = shared.encrypt(payload)
+            ref = make().encrypt(payload)           # a fresh object is the reference for "no dependence on earlier calls"
+            if fr != ref:
+                bad.append((n, op, "frame differs from the frame a fresh encryptor makes"))
+            frames.append((fr, payload))
+        else:
+            if op == "unwrap-own" and frames:
+                fr, payload = frames[-1]
+            else:
+                fr = make().encrypt(payload)
+            want = make().decrypt(fr)
+            out = vc.call(shared.decrypt, fr)
+            if not out.returned or out.value != want:
+                bad.append((n, op, repr(out.exc) if not out.returned else "different payload"))
+    vc.prove("every-call-behaves-like-the-first-call-on-a-fresh-object", not bad, repr(bad[:3]))
